@@ -84,6 +84,27 @@ def run_check(chk, tier):
                 violations.setdefault(r.key or r.verdict[0], []).append((plan, r))
         known = C.known_open(chk.PROP)
         lines, vio_recs, known_hit = [], [], {}
+        # Closed-space checks also list their findings by input (known_inputs/<id>.json.gz: the points at which the unchanged
+        # tree fails, with the site seen there).  A listed point that fails under another site name - a function was renamed,
+        # inlined or split by a change that keeps the behaviour - is the listed finding, not a new one.
+        known_inputs = C.known_inputs(chk.PROP) if getattr(chk, 'KNOWN_INPUTS', False) else {}
+        if known_inputs:
+            for key in list(violations):
+                if key in known:
+                    continue
+                rest = []
+                for plan, r in violations[key]:
+                    pid = '%s|%s|%s' % (plan['item'], plan['params'].get('cmd'), ':'.join(str(x) for x in plan['params']['fault']) if plan['params'].get('fault') else 'intact')
+                    listed = known_inputs.get(pid)
+                    if listed and listed in known:
+                        known_hit[listed] = known_hit.get(listed, 0) + 1
+                        lines.append('KNOWN-FINDING: property=%s %s [this run names the site %s]' % (chk.PROP, known[listed].get('what', listed), key))
+                    else:
+                        rest.append((plan, r))
+                if rest:
+                    violations[key] = rest
+                else:
+                    del violations[key]
         max_handle = getattr(chk, 'MAX_HANDLE', 12)
         handled = 0
         for key in sorted(violations):
